@@ -677,7 +677,12 @@ func (e *SpecEnv) evalCall(n *ECall) SVal {
 	case "old":
 		sub := *e
 		sub.inOld = true
-		return sub.eval(n.Args[0])
+		r := sub.eval(n.Args[0])
+		if sl, ok := r.V.(SliceVal); ok {
+			// the contents of a slice at function entry: a snapshot (indexing it later must not read the post-state)
+			return SVal{V: e.x.seqView(e.pre, sl), T: typString}
+		}
+		return r
 	case "ite":
 		c := e.evalBool(n.Args[0])
 		if c.IsTrue() {
@@ -764,6 +769,14 @@ func (e *SpecEnv) evalCall(n *ECall) SVal {
 			sfail("fresh: not a slice")
 		}
 		return SVal{V: o.Or(o.Ge(s.Reg, e.allocPre), o.Eq(s.Reg, o.Int(0))), T: typBool}
+	case "sameSlice":
+		v, w := arg(0), arg(1)
+		s, ok1 := v.V.(SliceVal)
+		b, ok2 := w.V.(SliceVal)
+		if !ok1 || !ok2 {
+			sfail("sameSlice: not slices")
+		}
+		return SVal{V: o.And(o.Eq(s.Reg, b.Reg), o.Eq(s.Off, b.Off), o.Eq(s.Len, b.Len), o.Eq(s.Cap, b.Cap)), T: typBool}
 	case "sameOrFresh":
 		v, w := arg(0), arg(1)
 		s, ok1 := v.V.(SliceVal)
@@ -771,7 +784,7 @@ func (e *SpecEnv) evalCall(n *ECall) SVal {
 		if !ok1 || !ok2 {
 			sfail("sameOrFresh: not slices")
 		}
-		return SVal{V: o.Or(o.And(o.Eq(s.Reg, b.Reg), o.Eq(s.Off, b.Off)), o.Ge(s.Reg, e.allocPre)), T: typBool}
+		return SVal{V: o.Or(o.And(o.Eq(s.Reg, b.Reg), o.Eq(s.Off, b.Off), o.Eq(s.Cap, b.Cap)), o.Ge(s.Reg, e.allocPre)), T: typBool}
 	case "in":
 		// in(patternVar, seq): membership in the language of a regexp variable of the package
 		pn, ok := n.Args[0].(*EIdent)
@@ -781,6 +794,75 @@ func (e *SpecEnv) evalCall(n *ECall) SVal {
 		v := arg(1)
 		sv := e.x.seqView(e.st(), v.V)
 		return SVal{V: e.x.inLang(e.pk, pn.Name, sv), T: typBool}
+	case "inre":
+		// inre(NAME, seq): membership in a regexp declared in the contract file with `regex NAME = ...`
+		pn, ok := n.Args[0].(*EIdent)
+		if !ok {
+			sfail("inre: first argument must name a `regex` of the contract file")
+		}
+		pat, ok := e.pk.Contracts.Regexes[pn.Name]
+		if !ok {
+			sfail("inre: unknown regex %s", pn.Name)
+		}
+		ri, err := e.x.w.specRegex(e.pk.Name+".spec."+pn.Name, "^(?:"+pat+")$")
+		if err != nil {
+			sfail("inre: %v", err)
+		}
+		v := arg(1)
+		return SVal{V: e.x.inLangRI(ri, e.x.seqView(e.st(), v.V)), T: typBool}
+	case "leadRun":
+		// leadRun(seq, c1, c2, ...): number of leading bytes of seq that are one of the given characters
+		v := arg(0)
+		var set [128]bool
+		for i := 1; i < len(n.Args); i++ {
+			c := arg(i)
+			if c.C == nil || !c.C.IsInt64() || c.C.Int64() < 0 || c.C.Int64() > 127 {
+				sfail("leadRun: characters must be ASCII constants")
+			}
+			set[c.C.Int64()] = true
+		}
+		return SVal{V: e.x.leadRun(e.x.seqView(e.st(), v.V), set), T: typInt}
+	case "heapSameExcept":
+		// heapSameExcept(s): every byte of memory outside the elements of slice s has its value from function entry
+		v := arg(0)
+		sl, ok := v.V.(SliceVal)
+		if !ok {
+			sfail("heapSameExcept: not a byte slice")
+		}
+		r := o.BoundVar("r", IntSort)
+		i := o.BoundVar("i", o.IdxSort())
+		inside := o.And(o.Eq(r, sl.Reg), o.IdxLe(sl.Off, i), o.IdxLt(i, o.IdxAdd(sl.Off, sl.Len)))
+		body := o.Implies(o.And(o.Le(o.Int(0), r), o.Lt(r, e.allocPre), o.Not(inside)), o.Eq(o.Select(o.Select(e.st().H, r), i), o.Select(o.Select(e.pre.H, r), i)))
+		return SVal{V: o.Forall([]*Term{r, i}, body), T: typBool}
+	case "heapSameExceptFrom":
+		// heapSameExceptFrom(s, lo): every byte of pre-existing memory other than s[lo:cap(s)] is unchanged
+		v := arg(0)
+		sl, ok := v.V.(SliceVal)
+		if !ok {
+			sfail("heapSameExceptFrom: not a byte slice")
+		}
+		lo := e.asInt(arg(1), tyInt)
+		r := o.BoundVar("r", IntSort)
+		i := o.BoundVar("i", o.IdxSort())
+		inside := o.And(o.Eq(r, sl.Reg), o.IdxLe(o.IdxAdd(sl.Off, lo), i), o.IdxLt(i, o.IdxAdd(sl.Off, sl.Cap)))
+		body := o.Implies(o.And(o.Le(o.Int(0), r), o.Lt(r, e.allocPre), o.Not(inside)), o.Eq(o.Select(o.Select(e.st().H, r), i), o.Select(o.Select(e.pre.H, r), i)))
+		return SVal{V: o.Forall([]*Term{r, i}, body), T: typBool}
+	case "theBuffer":
+		// the contents of the (single) bytes.Buffer object of the function, as a byte slice
+		st := e.st()
+		var found Val
+		for obj, v := range st.Cells {
+			if obj.Name == "bytes.Buffer" {
+				if found != nil {
+					sfail("theBuffer: more than one bytes.Buffer in scope")
+				}
+				found = v
+			}
+		}
+		if found == nil {
+			sfail("theBuffer: no bytes.Buffer in scope")
+		}
+		return SVal{V: found, T: types.NewSlice(typByte)}
 	case "seq":
 		// seq(b0, b1, ...) : the byte sequence of its arguments
 		arr := e.x.freshByteArr("seq")
